@@ -5,7 +5,11 @@ from ..engine import monitors, suite
 from ..runner import Env, Outcome
 
 THEOREMS = ["C02_route_count", "C02_never_unaccepted", "C02_target_only", "C02_waiter_gets_result",
-            "C02_unhandled_iff", "C02_outputs_requeued", "C02_queue_command_buffers_once"]
+            "C02_unhandled_iff", "C02_outputs_requeued", "C02_queue_command_buffers_once",
+            # whole runs of the runner LTS: tick conservation (no loss, no duplication up to the reducer)
+            "C02_ticks_conserved", "C02_ticks_conserved_from", "C02_event_reduced_at_most_once_per_creation",
+            "C02_unreduced_tick_still_pending", "C02_ended_run_is_frozen", "C02_step_output_reaches_reducer",
+            "C02_stop_result_ends_run", "C02_buffered_tick_reaches_reducer"]
 LEAN_TARGETS = ["WfProps.C02"]
 EXPLANATION = (
     "Lean: for every state (with the C01 invariant), every event, target and clock, the add-event tick changes the "
